@@ -135,6 +135,14 @@ show_state(void)
 	       (uint64_t)cache->hits.number, (uint64_t)cache->misses.number);
 	print_list("pend", pend, npend);
 	print_list("plain", plain, nplain);
+
+	/* the raw pointer members, for the pointer-level model */
+	printf(" raw=%u nx=", cache->inflight);
+	for (i = 0; i < n; ++i)
+		printf("%s%u", i ? "," : "", cache->ce[i].next);
+	printf(" pv=");
+	for (i = 0; i < n; ++i)
+		printf("%s%u", i ? "," : "", cache->ce[i].prev);
 }
 
 static void
@@ -184,6 +192,7 @@ main(int argc, char **argv)
 			cache->ce[i].key = STALE_KEY + i;
 			cache->ce[i].state = cs_valid;
 		}
+		cache->inflight = 0;	/* indeterminate until the first add_inflight */
 		for (i = 0; i < cap; ++i)
 			((uint64_t *)cache->data)[i] = GARBAGE;
 		npend = nplain = 0;
